@@ -78,44 +78,97 @@ Theorem treeshake_off_keeps_everything_refuted :
 Proof. exact ts_off_keeps_everything_refuted_witness. Qed.
 Print Assumptions treeshake_off_keeps_everything_refuted.
 
-(* ---- purity classifier (model of ExprCanBeRemovedIfUnused) ---- *)
+(* ---- purity classifier (model of Expr/Stmts/ClassCanBeRemovedIfUnused) ---- *)
 From V Require Import C04.Purity C04.PuritySem C04.PurityProofs C04.PurityMain.
 
-(* An expression WITHOUT purity annotations or parser-set purity flags that
-   the classifier calls removable evaluates, in the probe-trace semantics of
-   PuritySem.v, with an EMPTY trace and WITHOUT throwing - for every world
-   (arbitrary user code behind every oracle), assuming only esbuild's
-   documented concessions: declared identifiers are not read inside their
-   temporal dead zone and import bindings are initialised. Class expressions
-   are outside the fragment (they need statement semantics): partial. *)
-Theorem can_be_removed_pure_partial :
+(* The classifier is sound for the FULL modelled AST - expressions, object and
+   class members, class expressions/declarations (heritage, computed keys,
+   static fields, static blocks), statements (declarations with array
+   destructuring and defaults, try/finally, export default, return) - in the
+   probe-trace semantics of PuritySem.v, for EVERY world: all user code (calls,
+   getters and Proxy-like property reads, ToPrimitive/toString/valueOf,
+   iteration, class heritage checks, everything outside the fragment) sits
+   behind oracles that may emit any trace and may throw; the world has no other
+   state, so "empty trace" is "world unchanged".
+   A node WITHOUT purity annotations or parser-set purity flags ([plain]) that
+   the classifier calls removable evaluates with an EMPTY trace and WITHOUT
+   throwing. Visible hypotheses = esbuild's documented concessions:
+     - declared identifiers are not read in their temporal dead zone;
+     - import bindings are initialised;
+     - a class heritage is a constructor whose "prototype" read runs no user code.
+   Built-ins are intact (array-literal iteration and ToString of primitives run
+   no user code: part of the semantics). Forms the semantics treats as opaque
+   (all rejected by the classifier): decorators, parameter decorators, static
+   fields with assign semantics, object / nested array patterns, destructuring
+   of a non-literal, `using` of a non-nullish value, `await using`, catch
+   clauses (run only after a throw), every expression or statement kind the
+   classifier does not list. *)
+Theorem can_be_removed_pure :
   forall (is_unbound : nat -> bool) (env glob imp : nat -> option value) (this_val : value)
          (o_toprim : nat -> outcome) (o_iter : value -> outcome) (o_get : value -> Z -> outcome)
          (o_opaque : node -> outcome) (o_annotated : node -> list value -> outcome)
-         (rel_prim : binop -> value -> value -> bool) (loose_prim : value -> value -> bool),
+         (rel_prim : binop -> value -> value -> bool) (loose_prim : value -> value -> bool)
+         (o_heritage : value -> outcome) (default_runs : node -> nat -> bool),
     (forall r, is_unbound r = false -> env r <> None) ->
     (forall r, imp r <> None) ->
+    (forall v, exists w, o_heritage v = ([], Ok w)) ->
     forall e, plain e = true -> can_remove is_unbound e = true ->
-    exists v, eval is_unbound env glob imp this_val o_toprim o_iter o_get o_opaque o_annotated rel_prim loose_prim e = ([], Ok v).
+    exists v, eval is_unbound env glob imp this_val o_toprim o_iter o_get o_opaque o_annotated rel_prim loose_prim o_heritage default_runs e = ([], Ok v).
 Proof. exact removable_silent_plain. Qed.
-Print Assumptions can_be_removed_pure_partial.
+Print Assumptions can_be_removed_pure.
 
-(* With annotations and flags: the same conclusion when every flagged node
-   keeps its promise ([flags_ok]: flagged global reads are silent, annotated
-   calls are free of side effects, no identifier sits inside `with`). *)
-Theorem can_be_removed_pure_annotated_partial :
+(* the same for statement lists: StmtsCanBeRemovedIfUnused(stmts, flags) *)
+Theorem stmts_can_be_removed_pure :
   forall (is_unbound : nat -> bool) (env glob imp : nat -> option value) (this_val : value)
          (o_toprim : nat -> outcome) (o_iter : value -> outcome) (o_get : value -> Z -> outcome)
          (o_opaque : node -> outcome) (o_annotated : node -> list value -> outcome)
-         (rel_prim : binop -> value -> value -> bool) (loose_prim : value -> value -> bool),
+         (rel_prim : binop -> value -> value -> bool) (loose_prim : value -> value -> bool)
+         (o_heritage : value -> outcome) (default_runs : node -> nat -> bool),
     (forall r, is_unbound r = false -> env r <> None) ->
     (forall r, imp r <> None) ->
+    (forall v, exists w, o_heritage v = ([], Ok w)) ->
+    forall keep_export_clauses return_ok l,
+      forallb plain l = true -> stmts_can_remove is_unbound keep_export_clauses return_ok l = true ->
+      exists v, exec_stmts is_unbound env glob imp this_val o_toprim o_iter o_get o_opaque o_annotated rel_prim loose_prim o_heritage default_runs l = ([], Ok v).
+Proof. exact removable_stmts_silent_plain. Qed.
+Print Assumptions stmts_can_be_removed_pure.
+
+(* With annotations and parser-set flags: the same conclusions when every
+   flagged node keeps its promise ([flags_ok]: a flagged global / property read
+   is silent, an annotated call/new/template/expression really has no side
+   effects, a statement marked as lowering residue of a removable class is
+   silent, no identifier sits inside `with`). *)
+Theorem can_be_removed_pure_annotated :
+  forall (is_unbound : nat -> bool) (env glob imp : nat -> option value) (this_val : value)
+         (o_toprim : nat -> outcome) (o_iter : value -> outcome) (o_get : value -> Z -> outcome)
+         (o_opaque : node -> outcome) (o_annotated : node -> list value -> outcome)
+         (rel_prim : binop -> value -> value -> bool) (loose_prim : value -> value -> bool)
+         (o_heritage : value -> outcome) (default_runs : node -> nat -> bool),
+    (forall r, is_unbound r = false -> env r <> None) ->
+    (forall r, imp r <> None) ->
+    (forall v, exists w, o_heritage v = ([], Ok w)) ->
     forall e,
-      flags_ok is_unbound env glob imp this_val o_toprim o_iter o_get o_opaque o_annotated rel_prim loose_prim e ->
+      flags_ok is_unbound env glob imp this_val o_toprim o_iter o_get o_opaque o_annotated rel_prim loose_prim o_heritage default_runs e ->
       can_remove is_unbound e = true ->
-      exists v, eval is_unbound env glob imp this_val o_toprim o_iter o_get o_opaque o_annotated rel_prim loose_prim e = ([], Ok v).
+      exists v, eval is_unbound env glob imp this_val o_toprim o_iter o_get o_opaque o_annotated rel_prim loose_prim o_heritage default_runs e = ([], Ok v).
 Proof. exact removable_silent. Qed.
-Print Assumptions can_be_removed_pure_annotated_partial.
+Print Assumptions can_be_removed_pure_annotated.
+
+Theorem stmts_can_be_removed_pure_annotated :
+  forall (is_unbound : nat -> bool) (env glob imp : nat -> option value) (this_val : value)
+         (o_toprim : nat -> outcome) (o_iter : value -> outcome) (o_get : value -> Z -> outcome)
+         (o_opaque : node -> outcome) (o_annotated : node -> list value -> outcome)
+         (rel_prim : binop -> value -> value -> bool) (loose_prim : value -> value -> bool)
+         (o_heritage : value -> outcome) (default_runs : node -> nat -> bool),
+    (forall r, is_unbound r = false -> env r <> None) ->
+    (forall r, imp r <> None) ->
+    (forall v, exists w, o_heritage v = ([], Ok w)) ->
+    forall keep_export_clauses return_ok l,
+      all_ok (flags_ok is_unbound env glob imp this_val o_toprim o_iter o_get o_opaque o_annotated rel_prim loose_prim o_heritage default_runs) l ->
+      stmts_can_remove is_unbound keep_export_clauses return_ok l = true ->
+      exists v, exec_stmts is_unbound env glob imp this_val o_toprim o_iter o_get o_opaque o_annotated rel_prim loose_prim o_heritage default_runs l = ([], Ok v).
+Proof. exact removable_stmts_silent. Qed.
+Print Assumptions stmts_can_be_removed_pure_annotated.
 
 (* The typeof guards recognised by isSideEffectFreeUnboundIdentifierRef are
    sound: if the guard evaluated to the truth value of the branch, reading the
@@ -125,13 +178,14 @@ Theorem typeof_guard_sound :
          (o_toprim : nat -> outcome) (o_iter : value -> outcome) (o_get : value -> Z -> outcome)
          (o_opaque : node -> outcome) (o_annotated : node -> list value -> outcome)
          (rel_prim : binop -> value -> value -> bool) (loose_prim : value -> value -> bool)
+         (o_heritage : value -> outcome) (default_runs : node -> nat -> bool)
          value guard is_yes gv,
     guard_ok is_unbound value guard is_yes = true ->
-    flags_ok is_unbound env glob imp this_val o_toprim o_iter o_get o_opaque o_annotated rel_prim loose_prim value ->
-    flags_ok is_unbound env glob imp this_val o_toprim o_iter o_get o_opaque o_annotated rel_prim loose_prim guard ->
-    eval is_unbound env glob imp this_val o_toprim o_iter o_get o_opaque o_annotated rel_prim loose_prim guard = ([], Ok gv) ->
+    flags_ok is_unbound env glob imp this_val o_toprim o_iter o_get o_opaque o_annotated rel_prim loose_prim o_heritage default_runs value ->
+    flags_ok is_unbound env glob imp this_val o_toprim o_iter o_get o_opaque o_annotated rel_prim loose_prim o_heritage default_runs guard ->
+    eval is_unbound env glob imp this_val o_toprim o_iter o_get o_opaque o_annotated rel_prim loose_prim o_heritage default_runs guard = ([], Ok gv) ->
     truthy gv = is_yes ->
-    exists v, eval is_unbound env glob imp this_val o_toprim o_iter o_get o_opaque o_annotated rel_prim loose_prim value = ([], Ok v).
+    exists v, eval is_unbound env glob imp this_val o_toprim o_iter o_get o_opaque o_annotated rel_prim loose_prim o_heritage default_runs value = ([], Ok v).
 Proof. exact guard_sound. Qed.
 Print Assumptions typeof_guard_sound.
 
